@@ -67,5 +67,6 @@ template <class F> void with_arg(TextArg &A, F &&f) {
 
 bool u16_strict(const std::u16string &u, Scalars &out);
 bool u32_strict(const std::u32string &u);
+const char *SK_kind_name(unsigned sk);
 
 } // namespace A
